@@ -192,6 +192,19 @@ CLAIMS = {
              "rayon's fairness are not controlled; the Task model is tied to task.rs only through the cancellation / error runs on the real thread pool (TaskState is crate-private); the wasm runtime is not driven.",
         technique="Lean 4 proof (invariants of the task and barrier protocol models by induction over all schedules) + controlled-scheduler exploration of the real pipelines with a lost-wake-up oracle + cancellation/error runs",
         design="5/C04"),
+    "C16": dict(
+        text=("Partial. Props/C16.lean about Core/Layout.lean (model of RowLayout::try_new / byte_offset and of AggregateLayout::try_new / align_len): for every column list every field lies inside its row after the validity "
+              "bitmap (field_in_row), consecutive fields do not overlap (offsetsFrom_disjoint), every cell lies inside a buffer of `rows` rows (cell_in_buffer), every validity bit fits (validity_bit_fits); for every list of "
+              "aggregate state descriptors whose alignments divide the maximum, every state offset is a multiple of the state's own alignment, states do not overlap and the row width is a multiple of the base alignment "
+              "(agg_states_aligned, aggOffsets_disjoint - induction over the state list); the phase gate of the hash join (flag implies every partition arrived, from the C04 barrier invariant). Tie: real RowLayout offsets "
+              "(cfg hook) vs the model on random column lists; every ordered pair of 28 aggregate calls with differently sized / aligned states, grouped and ungrouped, 1-8 partitions, with the engine's debug assertions "
+              "compiled in (an alignment or bounds assertion aborts the child process); strings around the 12-byte inline threshold, very long and multi-byte values through sort / join / GROUP BY / DISTINCT / min with "
+              "batch sizes 1-2048 and up to 30000 rows against closed-form results; the hash-join shapes of C04 under the controlled scheduler."),
+        note=TB + "why partial: aliasing, lifetimes, initialisation and data races below the phase granularity are properties of Rust/LLVM semantics that no executable Lean model here expresses; the claim is limited to 'the "
+             "offsets and alignments the unsafe code computes are in bounds, and the phase protocol that is its stated safety argument holds'; AddressSanitizer / Miri runs of the workloads are not part of the registered checks "
+             "(a full sanitizer build of the engine does not fit the quick tier); AggregateLayout itself is not reachable through a hook (its states are function pointers), only its arithmetic is modelled.",
+        technique="Lean 4 proof (row / aggregate layout arithmetic in bounds and aligned, by induction over column and state lists) + layout correspondence + debug-assertion oracle on alignment-, string- and phase-sensitive workloads",
+        design="5/C16", partial=True),
 }
 
 NOT_YET = {
